@@ -300,3 +300,15 @@ unsigned tl_corpus(const char ***pathsp)
   *pathsp = v;
   return n;
 }
+
+/* a normal object with neither a PU nor a NUMA node below it: every discovery removes such objects (remove_empty), so no reload gives them
+ * back; hwloc_topology_restrict() by nodeset can leave some behind (open finding, first seen by C05) */
+int tv_has_empty_normal_object(hwloc_topology_t t)
+{
+  int td = hwloc_topology_get_depth(t);
+  for (int d = 1; d < td; d++) for (hwloc_obj_t o = NULL; (o = hwloc_get_next_obj_by_depth(t, d, o)) != NULL; ) {
+    if (!hwloc_bitmap_iszero(o->cpuset)) continue;
+    int mem = 0; for (hwloc_obj_t n = NULL; !mem && (n = hwloc_get_next_obj_by_type(t, HWLOC_OBJ_NUMANODE, n)) != NULL; ) for (hwloc_obj_t a = n->parent; a; a = a->parent) if (a == o) { mem = 1; break; }
+    if (!mem) return 1; }
+  return 0;
+}
